@@ -109,10 +109,16 @@ class World:
         self.has_truth = True   # every document in docs is one of gts (so entry ids can be computed)
 
     def add_file(self, path, content, group=None):
+        """returns False (and does nothing) when the path collides with an existing file or directory"""
         path = tuple(path)
+        if path in self.dirs or any(path[:k] in self.files for k in range(1, len(path))):
+            return False
+        if any(q[:len(path)] == path and len(q) > len(path) for q in self.files):
+            return False
         for k in range(1, len(path)):
             self.dirs.add(path[:k])
         self.files[path] = (content, group)
+        return True
 
 def corrupt(rng, data):
     if not data:
@@ -186,7 +192,8 @@ def gen_world(rng, ntorrents=None, features=()):
                     path = sd + (b"r%d_%d_%d" % (w.gts.index(g), fi, c),)                   # renamed
                 if path in w.files:
                     continue
-                w.add_file(path, content)
+                if not w.add_file(path, content):
+                    continue
                 if rng.chance(1, 6):
                     group[0] += 1
                     w.files[path] = (content, group[0])
